@@ -260,4 +260,40 @@ def binRecOld : Nat → Bytes → Nat → Bool → Nat → Option (BinState × L
         | none => none
         | some (st, ms, d) => some (st, buf.take c.1 :: ms, d)
 
+
+/-! ## The line branch before repair 4e9e31b (witness of the old defect)
+
+The read that completed authentication was split on CR LF as a whole; after the authenticator had
+reported success (`self._dbusAuth = None`, `if self._buffer: self.dataReceived(b'')`) the `for` loop
+went on with the remaining "lines" - which are message bytes - and called
+`self._dbusAuth.handleAuthMessage(line)` on `None`: AttributeError.  `none` = the discarded
+authenticator.  Only the effects are modelled. -/
+/-- Messages the binary branch delivers from `rem` (fuel-recursive twin of `binLoop`, so that `decide`
+can evaluate the witness). -/
+def oldDeliveries (rem : Bytes) : List Bytes :=
+  match binRecOld (rem.length + 1) rem 0 false 1 with
+  | some (_, ms, _) => ms
+  | none => []
+
+def lineLoopOld {α : Type} (A : Auth α) (rem : Bytes) : Option α → Bool → List Bytes → List Effect
+  | _, _, [] => []
+  | a, closed, line :: rest =>
+    if closed then []
+    else if line.length > maxAuthLength then [.lose]
+    else
+      match a with
+      | none => [.crash]                                   -- 'NoneType' object has no attribute ...
+      | some a =>
+        match A.handle a line with
+        | (_, .success) =>
+          -- binary branch on the unterminated remainder only, then the loop continues
+          .line line :: ((oldDeliveries rem).map Effect.msg ++ lineLoopOld A rem none closed rest)
+        | (a', .cont) => .line line :: lineLoopOld A rem (some a') closed rest
+        | (a', .failed) => .line line :: .lose :: lineLoopOld A rem (some a') true rest
+
+/-- Effects of one read in line mode, old code (client, or server after its first byte). -/
+def lineBodyOld {α : Type} (A : Auth α) (s : St α) (data : Bytes) : List Effect :=
+  let sp := splitCRLF (s.buffer ++ data)
+  lineLoopOld A sp.2 (some s.auth) s.closed sp.1
+
 end Txdbus.Proto
